@@ -13,6 +13,15 @@ Case format:
           `warp <k>`     all counters / sequence numbers advanced by k (a multiple of
                           cap) — used only by the F12 (ticket ABA) replay
           `final`        `final len=<n> empty=<b> full=<b> [values popped until false]`
+  header  `@ C01 ringc <prov> <pcap> <pfill> <cap> <warp> <fill> T …`  (re-configuration)
+           prov 1: tmpl := NewSync(pcap); Push 9001..9000+pfill; r := tmpl (struct copy);
+                   r.Init(cap); then as `ring` on r — `final` also observes tmpl
+           prov 2: r0 as in `ring`; backlog := r0; r0.Init(pcap); then as `ring` on backlog —
+                   `final` also observes r0
+           `Init` ALLOCATES its slot array (Model/C01Heap.lean: the array is a heap object
+           with identity, `init_fresh`), so the other ring value is untouched: `final` ends
+           in ` other=[…] probe=ok` (content of the other ring, then a fill/refuse/drain
+           cycle on it).
 -/
 import Golib.Model.C01Ring
 
@@ -135,7 +144,7 @@ def fillUp (c : Cfg) : Nat → Nat → State → State
     | some (s1, _) => fillUp c k (v + 1) { s1 with threads := s.threads }
     | none => s
 
-def runOps (c : Cfg) : State → List String → List String
+def runOps (c : Cfg) (suffix : String) : State → List String → List String
   | _, [] => []
   | s, l :: ls =>
     match toks l with
@@ -143,33 +152,33 @@ def runOps (c : Cfg) : State → List String → List String
       match t.toNat? with
       | some i =>
         let (s1, e) := macroStep c s i
-        showStep c s1 e :: runOps c s1 ls
-      | none => "bad-op" :: runOps c s ls
+        showStep c s1 e :: runOps c suffix s1 ls
+      | none => "bad-op" :: runOps c suffix s ls
     | ["drain"] =>
       match drain c 400 s [] with
       | (s1, some acc) =>
-        (if acc.isEmpty then "quiet" else " ; ".intercalate acc.reverse) :: runOps c s1 ls
-      | (s1, none) => "drain-timeout" :: runOps c s1 ls
+        (if acc.isEmpty then "quiet" else " ; ".intercalate acc.reverse) :: runOps c suffix s1 ls
+      | (s1, none) => "drain-timeout" :: runOps c suffix s1 ls
     | ["warp", k] =>
       match k.toNat? with
       | some k =>
         if c.cap ≠ 0 ∧ k % c.cap = 0 then
           let s1 := s.shift c k
-          s!"warped len={lenNow c s1}" :: runOps c s1 ls
-        else "bad-op" :: runOps c s ls
-      | none => "bad-op" :: runOps c s ls
+          s!"warped len={lenNow c s1}" :: runOps c suffix s1 ls
+        else "bad-op" :: runOps c suffix s ls
+      | none => "bad-op" :: runOps c suffix s ls
     | ["final"] =>
       (if allIdle s then
         let n := lenNow c s
         let e := s.head == s.tail
         let f := c.sub s.tail s.head == c.cap
-        s!"final len={n} empty={showBool e} full={showBool f} {showInts (popAll c (c.cap + 2) s [])}"
-       else "busy") :: runOps c s ls
-    | _ => "bad-op" :: runOps c s ls
+        s!"final len={n} empty={showBool e} full={showBool f} {showInts (popAll c (c.cap + 2) s [])}{suffix}"
+       else "busy") :: runOps c suffix s ls
+    | _ => "bad-op" :: runOps c suffix s ls
 
 def bad (ops : List String) : List String := "bad-op" :: ops.map fun _ => "bad-op"
 
-def runRingCase (hdr : List String) (ops : List String) : List String :=
+def runRingCase (suffix : String) (hdr : List String) (ops : List String) : List String :=
   match hdr with
   | capS :: warpS :: fillS :: rest =>
     match capS.toInt?, warpS.toNat?, fillS.toNat?, splitProgs rest with
@@ -181,7 +190,7 @@ def runRingCase (hdr : List String) (ops : List String) : List String :=
         | some cap =>
           let c := conc32 cap
           let s0 := fillUp c fill 1 (initAt c k [])
-          "ok" :: runOps c { s0 with threads := progs.map mkThread } ops
+          "ok" :: runOps c suffix { s0 with threads := progs.map mkThread } ops
       | none => bad ops
     | _, _, _, _ => bad ops
   | _ => bad ops
@@ -189,7 +198,20 @@ def runRingCase (hdr : List String) (ops : List String) : List String :=
 /-- Entry point of the C01 section of the oracle: header tokens after `@ C01`. -/
 def runCase (hdr : List String) (ops : List String) : List String :=
   match hdr with
-  | "ring" :: rest => runRingCase rest ops
+  | "ring" :: rest => runRingCase "" rest ops
+  | "ringc" :: prov :: pcapS :: pfillS :: rest =>
+    match prov.toNat?, pcapS.toNat?, pfillS.toNat? with
+    | some pv, some pcap, some pfill =>
+      if (pv = 1 ∨ pv = 2) ∧ 1 ≤ pcap ∧ pcap ≤ 65536 ∧ pfill ≤ 65536 then
+        match initCap pcap with
+        | some c =>
+          -- what the OTHER ring value of the pair holds: Init allocated a fresh array
+          let other : List Int :=
+            if pv = 1 then (List.range (min pfill c)).map fun (i : Nat) => Int.ofNat (9001 + i) else []
+          runRingCase s!" other={showInts other} probe=ok" rest ops
+        | none => bad ops
+      else bad ops
+    | _, _, _ => bad ops
   | _ => bad ops
 
 end Golib.C01
